@@ -74,15 +74,20 @@ where
             return Poll::Ready(Err(error.clone()));
         };
 
+        // Register the waker before the check: an error which is stored after the check wakes
+        // this task, one which is stored before it is seen. The other way round, an error
+        // stored between the check and the registration would wake whoever was registered
+        // before, or nobody, and leave this task parked.
+        #[cfg(feature = "verif-hooks")]
+        crate::shared_state::verif::yield_point("waker.register");
+        self.waker().register(cx.waker());
+
         // Check if the connection is in error state
         if let Some(err) = self.get_conn_error() {
             let err = self.close_if_needed(err);
             // err might be a different error so match again
             return Poll::Ready(Err(self.convert_to_connection_error(err)));
         }
-        #[cfg(feature = "verif-hooks")]
-        crate::shared_state::verif::yield_point("waker.register");
-        self.waker().register(cx.waker());
         Poll::Pending
     }
 
